@@ -167,6 +167,12 @@ class RunWeights(Relation):
             sk = self.SKEWS[k % len(self.SKEWS)]
             ns['skew'] = None if sk is None else float(sk)
             ns['numinst'] = 1 + k % 3          # later instances of one run must use the requested skew as well
+            if k % 3 == 1 and ns['mp'] != 'sm' and ns['n1'] >= ns['n2']:
+                # coinciding parameter values: every quota sum equal to the number of first-side agents, incomplete lists
+                ns['uq'] = ns['lq'] = ns['n1']
+                if ns['n2'] > 1:
+                    ns['pmax'] = min(ns['pmax'], ns['n2'] - 1)
+                    ns['pmin'] = min(ns['pmin'], ns['pmax'])
             yield dict(ns=ns, seed=rng.randrange(10**6))
 
     def observe(self, inp):
